@@ -1566,6 +1566,7 @@ Definition cases : list case := [
 	coveredRefuted := map[string]int{}
 	finalCoveredRefuted := map[string]int{}
 	bothRefuted := map[string]int{}
+	outsideRefuted, outsideClean := 0, 0
 	shrunkPerClass := map[string]int{}
 	for i, p := range pats {
 		if rewrites[i] == "" {
@@ -1573,6 +1574,13 @@ Definition cases : list case := [
 		}
 		d, n := compareRegexps(p, rewrites[i], maxLen, budget, orng, nil)
 		subjectsTried += n
+		if !inFrag[i] {
+			if d != nil {
+				outsideRefuted++
+			} else {
+				outsideClean++
+			}
+		}
 		if d == nil {
 			if !certified[i] {
 				uncertifiedClean++
@@ -1642,6 +1650,8 @@ Definition cases : list case := [
 	meta.Distribution["oracle_refuted_although_pass1_tree_proved_sound"] = coveredRefuted
 	meta.Distribution["oracle_refuted_although_final_tree_proved_sound"] = finalCoveredRefuted
 	meta.Distribution["oracle_refuted_inside_both_theorem_domains"] = bothRefuted
+	meta.Distribution["rewrites_outside_one_pass_theorem_refuted_by_oracle"] = outsideRefuted
+	meta.Distribution["rewrites_outside_one_pass_theorem_not_refuted"] = outsideClean
 	meta.Evaluations = len(pats) + semRuns + subjectsTried
 	meta.Distinct = nRewrites
 	meta.Rule = "patterns: the repo's regexpSimplify testdata strings and the defect corpus first, then grammar-based (small alphabet), metacharacter-heavy, class-heavy and mutation streams, all valid UTF-8 and accepted by regexp.Compile, <= 60 bytes plus a few longer ones; each is parsed by syntax.Parser{NoLiterals:true} (tree dumped as a Coq term), run through linter.NewChecker(regexpSimplify) on a type-checked generated file, and compared in Coq with the model's two-pass result (the parser supplies the tree of the model's pass-1 text); matcher model vs regexp.FindStringSubmatchIndex on sampled (pattern, subject) pairs; oracle: both sides of every proposed rewrite compiled by regexp and compared on NumSubexp, SubexpNames and FindStringSubmatchIndex over all subjects up to length 4 (5 thorough) over the pattern's alphabet + a foreign rune, \\n, \\v. distinct_nontrivial = number of distinct patterns for which the checker proposed a rewrite"
